@@ -63,6 +63,8 @@ _MISSING = object()
 
 
 def _static_attr(owner, attr):
+    if not isinstance(owner, type):
+        return owner.__dict__[attr]  # module attribute
     for k in owner.__mro__:
         if attr in k.__dict__:
             return k.__dict__[attr]
